@@ -40,7 +40,7 @@ KINDS = {
         "gen": "ReqRepGen", "gen_cfg": "MC_ReqRepGen.cfg", "gen_sim_cfg": "MC_ReqRepGen_sim.cfg",
         "bin": "router_reqrep",
         "trace_b": ("Trace_ReqRepIface", "Trace_ReqRepIface.cfg"),
-        "trace_a": None,
+        "trace_a": ("Trace_ReqRepRouter", "Trace_ReqRepRouter.cfg"),
         "devs": ["FixD1", "FixD3", "FixD4", "FixD5", "FixD6", "FixD9", "FixD16"],
         "tiers": {
             "quick": {"gen_env": 4, "gen_cap": 4000, "sim": 1500, "random": 1500, "rand_args": []},
